@@ -1,8 +1,8 @@
 """C13 - services and applications follow their lifecycle; only running software works.
 
 Model: spec/Software.tla (MC_Software: exhaustive over one service, one application and a second
-application that is installed / uninstalled / re-installed, durations 0..2, three port layouts, with
-liveness of the timed completions).  Binding: TLC -simulate behaviours of MC_Software are replayed
+application that is installed / uninstalled / re-installed, durations 0..2, three port layouts;
+MC_SoftwareLive.cfg: liveness of the timed completions under fairness of Tick).  Binding: TLC -simulate behaviours of MC_Software are replayed
 event by event through the request API on a real host for every shipped service / application type
 (the model's names svc / app / app2 bound to real software), the whole node's software state is
 projected after every event (operating states, four registries, open ports, who handled an injected
@@ -86,10 +86,14 @@ def main(tier: str, seed: int) -> int:
     r = tlc.mc("MC_Software")
     if not r["ok"]:
         chk.violation({"module": "MC_Software", "clause": str(r["violation"])}, {"tlc": r["output_tail"]})
-    chk.add_mc("MC_Software(MaxDur=2, svc+app+app2, 3 port layouts, liveness)", r)
+    chk.add_mc("MC_Software(MaxDur=2, svc+app+app2, 3 port layouts, safety)", r)
     for act in MC_ACTIONS:
         if r["coverage"].get(act, (0, 0))[1] == 0:
             raise tlc.TLCError(f"vacuous model: action {act} never taken")
+    rl = tlc.mc("MC_Software", cfg="MC_SoftwareLive.cfg")
+    if not rl["ok"]:
+        chk.violation({"module": "MC_SoftwareLive", "clause": str(rl["violation"])}, {"tlc": rl["output_tail"]})
+    chk.add_mc("MC_SoftwareLive(MaxDur=2, 1 port layout, liveness of timed completions under WF(Tick))", rl)
 
     quick = tier == "quick"
     types = rs.QUICK_TYPES if quick else rs.SERVICES + rs.APPLICATIONS
